@@ -257,7 +257,7 @@ class C02(LoaderEngine):
 class C03(LoaderEngine):
     prop = "C03"
     kinds = ["use", "forward"]
-    rule = ("@use/@forward graphs built by MC_Loader.tla (quick: <= 2 statements x 4 URL spellings (t, ./t, detour, t.scss) and <= 3 statements x 2 spellings over 3 files of which one lives in a subdirectory; thorough: 3 statements x 4 spellings, 4 statements x 3); every module "
+    rule = ("@use/@forward graphs built by MC_Loader.tla (quick: <= 2 statements x 4 URL spellings (t, ./t, detour, t.scss) and <= 3 statements x 2 spellings over 3 files of which one lives in a subdirectory; thorough: the same graphs with every trace validated and more random graphs (the larger configurations MC_Loader_C03_t3/_t.cfg exceed an hour); formerly planned: 3 statements x 4 spellings, 4 statements x 3); every module "
             "emits a marker rule; non-trivial = at least one load statement; distinct = distinct graph. Compared: outcome class and, for successful runs, "
             "how often each file's marker appears in the CSS (= how often the Loader machine executed it). InitStart/CacheHit hook events of every run are "
             "validated against the machine by Trace_Loader.tla, whose invariant InitOnce is evaluated after every event. Flow B: random use/forward graphs over 4 files.")
@@ -284,7 +284,7 @@ class C03(LoaderEngine):
 class C39(LoaderEngine):
     prop = "C39"
     level = "fault_enumeration"
-    rule = ("Graphs of MC_Loader.tla (<= 2 load statements, thorough 3, all four load kinds) x a fault armed on EVERY loader call index 1..3*MaxStmts x "
+    rule = ("Graphs of MC_Loader.tla (<= 2 load statements, all four load kinds; the 3-statement configuration MC_Loader_C39_t.cfg exceeds an hour and is not part of a tier) x a fault armed on EVERY loader call index 1..3*MaxStmts x "
             "{lookup error, read error}, enumerated by TLC; the Loader machine predicts which armed faults fire (a read fault only on the call that finds the file), "
             "that the compilation then ends with an error, and the number of loader calls of the fault-free run. non-trivial = the fault fires; distinct = distinct "
             "(graph, fault). After every faulted compilation the same graph is compiled again in the same process with a working loader and must give the fault-free output.")
